@@ -87,8 +87,12 @@ int BackendApp::Run(char **argv) {
     // For mp::Error, which can be thrown by Abort() or MP_RAISE,
     // we try to print the result into .sol file,
     // if the solution handler is available.
+    // Errors raised without a solve result code carry either -1
+    // (MP_RAISE) or the process exit status EXIT_FAILURE
+    // (UnsupportedError, formatted mp::Error): these are failures.
     GetBackend().ReportError(
-          er.exit_code()>=0 ? er.exit_code() : sol::FAILURE,
+          (er.exit_code()>=0 && er.exit_code()!=EXIT_FAILURE)
+          ? er.exit_code() : sol::FAILURE,
           std::string(GetBackend().long_name()) + ":  "
           + er.what());
   } catch (const std::exception& ex) {
